@@ -15,7 +15,7 @@ VERSIONS = [10, 11, 12, 13, 14, 20]
 USERS = ["alice", "bob", "carol"]
 GROUPSETS = [None] * 14 + [[], ["g1"], ["g2"], ["g1", "g2"], ["g2", "g1"], ["g3"]]
 MASKS = [0, 0x1, 0x2, 0x3, 0x4, 0x8, 0xC, 0x10, 0x80, 0x200, 0x3FF, 0x3FF, 0xFFFFFF, 0xFFFFFF, 0xFFFFFF, 0xFFFFFF,
-         0x3FF, 0xFFFFFF, 0x1000000, 0x20C, -1, -5, -0x201]
+         0x3FF, 0xFFFFFF, 0x1000000, 0x20C, -1, -5, -0x201, 0x200000, 0x200001, 0x200080, 0x200000]
 ALGS = [3, 4, 2, 1, 8]            # AES, RSA, 3DES, DES, HMAC_SHA1
 NAMES = ["n0", "n1", "n2", "key", "k"]
 GROUPS = ["grpA", "grpB"]
